@@ -1249,13 +1249,28 @@ func init() {
 			return
 		}
 		arrowReported := false
+		noFormatReported := false
 		check := func(where string, e error) bool {
 			text := e.Error()
 			targets := []struct {
 				name string
 				v    interface{}
 			}{{"Formattable(e)", errors.Formattable(e)}}
-			if isLibOuter(e) {
+			selfFormats := isLibOuter(e)
+			if _, isOE := e.(*errbase.OpaqueErrno); isOE {
+				// recorded finding: the one library error type without a Format method; fmt prints
+				// it as an ordinary error value (%d shows the struct, %+v is not verbose)
+				selfFormats = false
+				if _, isF := e.(fmt.Formatter); isF {
+					selfFormats = true // repaired
+				} else if !noFormatReported {
+					noFormatReported = true
+					o.evals++
+					o.fail(fmt.Sprintf("%%d of e (%T) does not give fmt's %%!verb(type) notation and %%+v is not the verbose rendering (%s)", e, where),
+						"opaqueerrno-no-format-method", fmt.Sprintf("%%d: %d   %%+v: %+v", e, e))
+				}
+			}
+			if selfFormats {
 				targets = append(targets, struct {
 					name string
 					v    interface{}
@@ -1311,7 +1326,7 @@ func init() {
 			}
 			// %+v layout
 			pv := fmt.Sprintf("%+v", errors.Formattable(e))
-			if isLibOuter(e) {
+			if selfFormats {
 				// a library type formats itself with the same engine
 				o.evals++
 				if own := fmt.Sprintf("%+v", e); own != pv {
